@@ -179,7 +179,7 @@ def run_kani(workdir, harnesses, target, timeout, extra=(), jobs=None, harness_t
                 continue
             for line in ps:
                 f = line.split()
-                if len(f) >= 4 and f[3] in ('cbmc', 'kani-compiler', 'goto-instrument') and f[2] == str(p.pid):
+                if len(f) >= 4 and f[3] in ('cbmc', 'goto-instrument', 'cadical', 'kissat') and f[2] == str(p.pid):
                     if int(f[1]) > mem_gb * 1024 * 1024:
                         killed.append(f[0])
                         subprocess.run(['kill', '-9', f[0]])
